@@ -107,7 +107,10 @@ def replay(obj):
 
 def run(rep, args):
     rep.level = 'other'
-    rep.classify(rebaseline=args.rebaseline)
+    # overloads told apart: which documented definition a request gets (count per signature, never out of range)
+    rep.run_proofs(['XMLDocParser.determine_documenting_index'], ['contracts.common', 'contracts.names', 'contracts.pybind'])
+    pr = rep.classify(rebaseline=args.rebaseline)
+    from props.pyprops import report_regressions
     import ast
     from pyvc.extract import Repo
     src = Repo().functions['PybindWrapper._wrap_method'].source
@@ -185,6 +188,7 @@ def run(rep, args):
                 rep.violation('doc:missing-raises', 'missing documentation raises %r' % e, dict(kind='missing', xml=bad_xml))
     finally:
         shutil.rmtree(base, ignore_errors=True)
+    report_regressions(rep, pr)
     rep.bounded['rule'] = ('documentation texts: all strings of length <= %d over 16 character-class representatives (quotes, backslash, newline, tab, control, hex-digit '
                            'letters, other ASCII, ?, U+00A0, U+00E9, U+200B, U+2028, astral) plus hand-picked quote/backslash mixes; each goes through a generated '
                            'Doxygen XML tree, the real extract_docstring and the real generator, and the emitted literal is decoded by a reference C++ literal decoder. '
